@@ -50,6 +50,12 @@ def maskSpecified : Option Int → Bool
   | some x => decide (0 ≤ x)
   | none => true
 
+/-- `a or b` for optional *objects* (classes without `__bool__` / `__len__`: true exactly when not `None`) -/
+def orObj (a b : Option Nat) : Option Nat :=
+  match a with
+  | some x => some x
+  | none => b
+
 /-- a user hook (`_initialize`, `_update`, …): leaves the component's status alone (`none`) or sets it (`some s`) -/
 def hook (o : Option Int) (st : Int) : Except Err Int := pure (o.getD st)
 
